@@ -142,9 +142,9 @@ Proof.
 Qed.
 
 (* ------------------------------------------------------------------ model_meets_spec on token lines *)
-Theorem model_meets_spec_wire_lemma : forall l cs, parse_case l = Some cs -> case_good cs -> run_spec l (run_model l) = [].
+Theorem model_meets_spec_wire_lemma : forall l cs, parse_case l = Some cs -> run_spec l (run_model l) = [].
 Proof.
-  intros l cs Hp Hg. unfold run_spec, run_model. rewrite Hp. destruct cs as [c ops|sc ops].
+  intros l cs Hp. pose proof (parsed_case_good l cs Hp) as Hg. unfold run_spec, run_model. rewrite Hp. destruct cs as [c ops|sc ops].
   - rewrite parse_print_obs. now apply (model_meets_spec_lemma (CObs c ops)).
   - rewrite parse_print_lv. now apply (model_meets_spec_lemma (CLv sc ops)).
 Qed.
